@@ -443,10 +443,6 @@ func c01BuildLongName(tier string) core.Source {
 	var cases []lc
 	for _, n := range []int{200, 255} {
 		for _, arr := range drive.Arrangements {
-			if n == 255 && arr == drive.Local {
-				// a failing local transfer deadlocks (see C18 finding); the 255-byte case is covered in the other arrangements
-				continue
-			}
 			cases = append(cases, lc{n, arr})
 		}
 	}
